@@ -36,6 +36,7 @@ InitSt == [hs |-> TRUE,            \* still in the opening handshake
            blkq |-> <<>>,          \* blocked-listener registrations sent, not yet handled
            ioev |-> 0,             \* number of I/O-thread records so far
            deadat |-> <<>>,        \* handle -> value of ioev when the model dropped its queues
+           proven |-> {},          \* handles that have themselves observed their queues gone
            frame_max |-> 131072]
 
 Init == /\ TInit
@@ -59,9 +60,15 @@ IoStep(a, b) ==
     [st EXCEPT !.ioev = @ + 1,
                !.deadat = [h \in DOMAIN @ \cup NewlyDead(a, b) |->
                              IF h \in NewlyDead(a, b) THEN st.ioev + 1 ELSE @[h]]]
+\* the same without counting an I/O-thread record (teardown: the channel slots are dropped after the
+\* stream, so the "maybe" window stays open)
+DeadMark(a, b) ==
+    [st EXCEPT !.deadat = [h \in DOMAIN @ \cup NewlyDead(a, b) |->
+                             IF h \in NewlyDead(a, b) \/ (h \in DOMAIN @ /\ @[h] = st.ioev) THEN st.ioev ELSE @[h]]]
 DeadView(h) ==
     IF ~Has(w.hs, h) THEN "yes"
     ELSE IF ~w.hs[h].dead THEN "no"
+    ELSE IF h \in st.proven THEN "yes"
     ELSE IF Has(st.deadat, h) /\ st.deadat[h] = st.ioev THEN "maybe" ELSE "yes"
 
 -----------------------------------------------------------------------------
@@ -303,27 +310,36 @@ SameVal(op, val, f) ==
 
 \* Outcome of a synchronous exchange on handle h in world x: <<checks, world after>>.
 \* The reply at the head of h's reply queue decides.
-SyncChecks(x, e, h, op) ==
+SyncChecks(x, e, h, op, dead0) ==
     LET rep == NextReply(x, h) IN
     IF ~rep.ok /\ rep.e.kind = "block"
     THEN << <<"C04:after-reply", FALSE>> >>
     ELSE IF rep.ok
-         THEN IF rep.f.m \in OpReply(op)
-              THEN << <<"C04:value", e.ok /\ SameVal(op, e.val, rep.f)>> >>
-              ELSE << <<"C04:type", ~e.ok /\ e.err.kind = "FrameUnexpected">> >>
+         THEN \* a reply that is there although the request could not even be sent (the handle's queue was
+              \* already gone) is reported as FrameUnexpected (check_recv_for_error)
+              IF dead0 = "yes"
+              THEN << <<"C04:type", ~e.ok /\ e.err.kind = "FrameUnexpected">> >>
+              ELSE IF rep.f.m \in OpReply(op)
+                   THEN << <<"C04:value", (e.ok /\ SameVal(op, e.val, rep.f))
+                                          \/ (dead0 = "maybe" /\ ~e.ok /\ e.err.kind = "FrameUnexpected")>> >>
+                   ELSE << <<"C04:type", ~e.ok /\ e.err.kind = "FrameUnexpected">> >>
          ELSE << <<ErrLabel(rep.e.kind), ~e.ok /\ SameErr(e.err, rep.e)>> >>
 
 AllPass(chks) == \A i \in DOMAIN chks : chks[i][2]
 
 \* result of Connection::close: the I/O thread's error if it has one, else the call's result
-CloseChecks(x, e) ==
+CloseChecks(x, e, dead0) ==
     LET r == ExitResult(x) IN
     IF ~x.gone THEN << <<"C05:joined", FALSE>> >>
     ELSE IF r.kind # "Ok"
          THEN << <<IF r.kind \in {"ServerClosedConnection"} THEN "C08:close-result" ELSE "C05:root",
                    ~e.ok /\ SameErr(e.err, r)>> >>
          ELSE LET rep == NextReply(x, "conn") IN
-              IF rep.ok THEN << <<"C08:close-result", e.ok>> >>
+              IF rep.ok
+              THEN \* a CloseOk that is there although the Close could not be sent: FrameUnexpected
+                   IF dead0 = "yes" THEN << <<"C08:close-result", ~e.ok /\ e.err.kind = "FrameUnexpected">> >>
+                   ELSE IF dead0 = "maybe" THEN <<>>
+                   ELSE << <<"C08:close-result", e.ok>> >>
               ELSE << <<"C08:close-result", ~e.ok>> >>
 
 TRet ==
@@ -335,10 +351,10 @@ TRet ==
            \* an open call continues on the freshly allocated handle
            h == IF op = "open" /\ c.allocid >= 0 THEN c.as ELSE h0
            Judge(x) ==
-             CASE op \in {"closeconn"} -> IF c.sends THEN CloseChecks(x, e) ELSE <<>>
+             CASE op \in {"closeconn"} -> IF c.sends THEN CloseChecks(x, e, c.dead0) ELSE <<>>
                [] op \in {"dropconn", "droph", "dropc"} -> <<>>            \* Drop returns nothing
                [] op = "open" ->
-                    IF c.allocid >= 0 THEN SyncChecks(x, e, h, op) \o
+                    IF c.allocid >= 0 THEN SyncChecks(x, e, h, op, "no") \o
                                            << <<"C10:open-id", e.ok => e.val.id = c.allocid>> >>
                     ELSE IF c.allocid = -1 THEN << <<"C10:open-fails", ~e.ok>> >>
                     ELSE << <<"C20:either-or", ~e.ok>> >>                  \* never reached the I/O thread
@@ -348,7 +364,7 @@ TRet ==
                     ELSE IF c.dead0 = "yes" THEN << <<"C20:either-or", ~e.ok>> >>
                     ELSE <<>>
                [] op \in NowaitOps ->
-                    IF ~Has(x.hs, h) THEN <<>>
+                    IF ~Has(x.hs, h) \/ x.hs[h].unsure THEN <<>>
                     ELSE IF ~x.hs[h].dead THEN << <<"C04:nowait", e.ok>> >>
                     ELSE LET rep == NextReply(x, h)
                              errok == ~e.ok /\ (IF rep.ok THEN e.err.kind = "FrameUnexpected"
@@ -360,7 +376,7 @@ TRet ==
                                  << <<lab, e.ok \/ errok>> >>
                [] op \in {"cancel"} /\ ~c.sends -> << <<"C11:cancel-idem", e.ok>> >>
                [] op \in {"close"} /\ ~c.sends -> <<>>
-               [] OTHER -> IF Has(x.hs, h) THEN SyncChecks(x, e, h, op) ELSE <<>>
+               [] OTHER -> IF Has(x.hs, h) /\ ~x.hs[h].unsure THEN SyncChecks(x, e, h, op, c.dead0) ELSE <<>>
            x0 == w
            x1 == Fire(w)
            useFired == CanFire(w) /\ ~AllPass(Judge(x0))
@@ -372,9 +388,17 @@ TRet ==
                           /\ ~(op = "open" /\ c.allocid < 0))
                       \/ (op \in NowaitOps /\ ~e.ok)
            dropcase == op \in {"dropc", "droph", "dropconn", "closeconn"} /\ ~c.sends
+           rep0 == IF Has(x.hs, h) THEN NextReply(x, h) ELSE [ok |-> FALSE, e |-> [kind |-> "none"]]
+           \* a ConsumeOk carries the receiving end of the consumer's queue; a call that does not
+           \* hand it to the application drops it
+           lost == IF pops /\ ~dropcase /\ rep0.ok /\ rep0.f.m = "basic.consume-ok" /\ ~(op = "consume" /\ e.ok)
+                   THEN Field(rep0.f, "cname", rep0.f.consumer_tag) ELSE ""
+           x2 == IF lost # "" /\ Has(x.cq, lost) THEN [x EXCEPT !.cq[lost].rx = FALSE] ELSE x
        IN /\ Step(Judge(x))
-          /\ w' = IF pops /\ ~dropcase THEN PopReply(x, h) ELSE x
-          /\ st' = IF useFired THEN [st EXCEPT !.pendw = FALSE] ELSE st
+          /\ w' = IF pops /\ ~dropcase THEN PopReply(x2, h) ELSE x2
+          /\ st' = [(IF useFired THEN DeadMark(w, x) ELSE st)
+                    EXCEPT !.pendw = IF useFired THEN FALSE ELSE @,
+                           !.proven = IF ~e.ok /\ Has(x.hs, h) /\ x.hs[h].dead THEN @ \cup {h} ELSE @]
           /\ ops' = Del(ops, e.th)
           /\ seen' = seen
 
@@ -399,7 +423,8 @@ TCmsg ==
            x == IF CanFire(w) /\ ~(Has(w.cq, e.c) /\ i <= Len(w.cq[e.c].q)) THEN Fire(w) ELSE w
            have == Has(x.cq, e.c) /\ i <= Len(x.cq[e.c].q)
            m == IF have THEN x.cq[e.c].q[i] ELSE [kind |-> "nothing"]
-       IN /\ Step(IF e.kind = "delivery"
+       IN /\ Step(IF Has(x.cq, e.c) /\ x.cq[e.c].unsure THEN <<>>
+                  ELSE IF e.kind = "delivery"
                   THEN << <<"C03:once", have /\ m.kind = "delivery">>,
                           <<"C03:intact", have /\ m.kind = "delivery" => SameDelivery(e, m)>> >>
                   ELSE << <<"C11:one-term", have>>,
@@ -412,7 +437,8 @@ TCdisc ==
     /\ IsEv("cdisc")
     /\ LET e == Rec[l]
            x == IF CanFire(w) /\ Has(w.cq, e.c) /\ w.cq[e.c].tx THEN Fire(w) ELSE w
-       IN /\ Step(<< <<"C11:disconnected", Has(x.cq, e.c) /\ ~x.cq[e.c].tx>>,
+       IN /\ Step(IF Has(x.cq, e.c) /\ x.cq[e.c].unsure THEN <<>> ELSE
+                  << <<"C11:disconnected", Has(x.cq, e.c) /\ ~x.cq[e.c].tx>>,
                      <<"C03:complete",
                        Has(x.cq, e.c) => Seen("c:" \o e.c) >=
                            Cardinality({i \in 1..Len(x.cq[e.c].q) : x.cq[e.c].q[i].kind = "delivery"})>>,
@@ -492,8 +518,10 @@ TIo ==
            kind == IF e.ev = "write" THEN (IF e.res = "error" THEN "IoErrorWritingSocket" ELSE "")
                    ELSE IF e.res = "eof" THEN "UnexpectedSocketClose"
                    ELSE IF e.res = "reset" THEN "IoErrorReadingSocket" ELSE ""
-       IN /\ w' = IF kind # "" /\ ~st.hs THEN Fatal(w, kind) ELSE w
-          /\ st' = IF kind = "IoErrorWritingSocket" THEN [st EXCEPT !.pendw = FALSE] ELSE st
+           w2 == IF kind # "" THEN Fatal(w, kind) ELSE w
+       IN /\ w' = w2
+          /\ st' = IF kind = "" THEN st
+                    ELSE [IoStep(w, w2) EXCEPT !.pendw = IF kind = "IoErrorWritingSocket" THEN FALSE ELSE @]
     /\ UNCHANGED <<ops, seen>>
     /\ Step(<<>>)
 
@@ -502,7 +530,7 @@ TStreamDrop ==
     /\ LET x == Fire(w) IN
        /\ Step(<< <<"C05:exit-explained", x.gone \/ st.hs>> >>)
        /\ w' = x
-    /\ st' = [st EXCEPT !.pendw = FALSE]
+       /\ st' = [DeadMark(w, x) EXCEPT !.pendw = FALSE]
     /\ UNCHANGED <<ops, seen>>
 
 THang == /\ IsEv("hang")
@@ -519,14 +547,15 @@ TIoGone ==
        /\ Step(<< <<"C05:joined", Rec[l].dropped>>,
                   <<"C05:exit-explained", x.gone \/ st.hs>> >>)
        /\ w' = x
-    /\ UNCHANGED <<ops, st, seen>>
+       /\ st' = [st EXCEPT !.proven = DOMAIN x.hs]
+    /\ UNCHANGED <<ops, seen>>
 
 TEnd ==
     /\ IsEv("end")
     /\ Step(<< <<"C01:resubmit", Rec[l].continuity_errors = 0>>,
                <<"C01:env", Rec[l].residue = 0 \/ w.fatal # "">>,
                <<"C08:last-frame",
-                 (w.phase \in {"cliclosed"} /\ w.fatal = "") => st.lastwire = "connection.close">>,
+                 (w.phase \in {"cliclosed"} /\ st.cclosed /\ w.fatal = "") => st.lastwire = "connection.close">>,
                \* (when both sides close at once the client's own Close stays its last frame)
                <<"C08:srv-last",
                  (w.phase = "srvclosing" /\ w.fatal = "" /\ ~st.cclosed) => st.lastwire = "connection.close-ok">> >>)
